@@ -15,7 +15,7 @@ ID = 'C08'
 LEVEL = 'fault_enumeration'
 crash_is_violation = False
 query_crash_is_violation = True      # a query or property that raises while the scheduler reads it: 'it never raises'
-QUICK_RUNS = 2000
+QUICK_RUNS = 2600
 THOROUGH_RUNS = 40000
 QUICK_BUDGET = 110
 THOROUGH_BUDGET = 1500
@@ -36,7 +36,8 @@ RULE = ('one run = one simulated hand (all variants, automation subsets, modes) 
         'exactly one NoOperation record and change nothing else. One run in 8 sits at a deck-exhausting table (6-8 handed stud and draw '
         'games, as in C06) and a state whose deck cannot cover the deal that is due is always attacked, with the request class '
         '"all of the deck plus cards of the reserve"; 3 runs in 16 of the tables with antes are forced-bet all-in tables (stacks no '
-        'larger than the ante, so the first betting round never opens) and most of their states are attacked')
+        'larger than the ante, so the first betting round never opens) and most of their states are attacked. In a third of the attacks '
+        'every public read-only property and getter is read for every player, board and hand type and must leave the state unchanged')
 ASSUMPTIONS = [
     'capacity rule (as C06/C07): tables whose card demand exceeds the whole deck are not seated',
     'only documented argument types; player indices stay within 0..n-1',
@@ -244,6 +245,50 @@ def phase_of(world):
     return world.enabled_phase() or ('over' if not world.state.status else 'none')
 
 
+PROPERTIES = ('actor_index', 'ante_poster_indices', 'blind_or_straddle_poster_indices', 'board_count', 'board_dealing_count',
+              'board_indices', 'cards_in_play', 'cards_not_in_play', 'checking_or_calling_amount', 'chips_pulling_indices',
+              'draw_statuses', 'effective_bring_in_amount', 'hand_killing_indices', 'hand_type_count', 'hand_type_indices',
+              'hole_dealee_index', 'max_completion_betting_or_raising_to_amount', 'min_completion_betting_or_raising_to_amount',
+              'player_indices', 'pot_amounts', 'pot_completion_betting_or_raising_to_amount', 'pots', 'reserved_cards',
+              'runout_count_selector_indices', 'showdown_index', 'stander_pat_or_discarder_index', 'street', 'street_count',
+              'street_indices', 'total_pot_amount', 'turn_index')
+
+
+def materialise(x):
+    return tuple(x) if hasattr(x, '__next__') else x
+
+
+def read_everything(st, ctx):
+    """Every public read-only property and getter of the state, for every player / board / hand type. Returns the list of
+    (name, args, exception) of those that raised."""
+    raised = []
+
+    def call(name, f, *args):
+        try:
+            materialise(f(*args))
+        except Exception as e:      # noqa: BLE001
+            raised.append((name, args, e))
+    for name in PROPERTIES:
+        call(name, lambda n=name: getattr(st, n))
+    n = st.player_count
+    for i in range(n):
+        for name in ('get_censored_hole_cards', 'get_down_cards', 'get_up_cards', 'get_effective_ante',
+                     'get_effective_blind_or_straddle', 'get_effective_stack', 'can_win_now'):
+            call(name, getattr(st, name), i)
+        for b in range(st.board_count):
+            for h in range(st.hand_type_count):
+                call('get_hand', st.get_hand, i, b, h)
+                call('get_up_hand', st.get_up_hand, i, b, h)
+    for b in range(st.board_count):
+        call('get_board_cards', st.get_board_cards, b)
+        for h in range(st.hand_type_count):
+            call('get_up_hands', st.get_up_hands, b, h)
+    call('get_dealable_cards', st.get_dealable_cards)
+    call('get_dealable_cards', st.get_dealable_cards, 3)
+    ctx.count('derived_queries_read', 1)
+    return raised
+
+
 def quick_print(st):
     """Cheap fingerprint (the full snapshot follows after the verifier)."""
     return (len(st.operations), st.status, st.street_index, tuple(st.stacks), tuple(st.bets), len(st.deck_cards),
@@ -273,6 +318,16 @@ class Adversary:
         self.before = snapshot(st)
         self.before_d = derived(st)
         self.before_q = quick_print(st)
+        self.pristine = copy.deepcopy(st)
+        if world.ch.chance('adv.read_all', 1, 3):
+            # every public read-only property and getter, for every player, board and hand type: reading changes nothing
+            # (that one of them raises in this state is counted, not judged: the property speaks of the yes/no queries)
+            for name, args, e in read_everything(st, self.ctx):
+                self.ctx.count('derived_query_raised:%s:%s' % (name, type(e).__name__))
+            after = snapshot(st)
+            if after != self.before or derived(st) != self.before_d:
+                raise Violation('C08.mutation', f'reading the public properties and getters [phase={phase}] changed the state: '
+                                f'{[x[0] for x in diff(self.before, after)]}', op='read', step='read')
         try:
             for mode in ('ignore', 'error'):
                 with warnings.catch_warnings():
@@ -306,6 +361,9 @@ class Adversary:
             if derived(st) != before_d:
                 raise Violation('C08.mutation', f'{what} {name}{args} [{label}, warnings={mode}] changed a derived query',
                                 op=name, step=what.split()[0])
+        def unchanged_after(steps):
+            if snapshot(st) != before or derived(st) != before_d:
+                unchanged(self.culprit(name, args, steps))
         self.serial += 1
         self.rekey('q')
         try:
@@ -316,7 +374,7 @@ class Adversary:
         if q is not True and q is not False:
             raise Violation('C08.query_type', f'{can}{args} returned {q!r}, not a bool', op=name)
         if quick_print(st) != self.before_q:
-            unchanged('query')          # names the query; subtler changes are found by the full comparison after the verifier
+            unchanged('query')          # the cheap fingerprint names the step at once; the full comparison follows below
         self.rekey('v')
         try:
             getattr(st, verify)(*args)
@@ -329,7 +387,8 @@ class Adversary:
             raise Violation('C08.verify_exc', f'{verify}{args} [{label}, warnings={mode}, phase={phase}] raised '
                             f'{type(e).__name__}: {e} (only ValueError/UserWarning are refusals)', op=name,
                             exc=type(e).__name__)
-        unchanged('query/verifier')
+        if quick_print(st) != self.before_q:
+            unchanged('verifier')
         if q != v:
             raise Violation('C08.disagree', f'{can}{args} says {q} but {verify} {"passes" if v else "refuses"} '
                             f'[{label}, warnings={mode}, phase={phase}]', op=name)
@@ -350,8 +409,11 @@ class Adversary:
             else:
                 raise Violation('C08.disagree', f'{can}{args} says no but {name}{args} succeeded '
                                 f'[{label}, warnings={mode}, phase={phase}]', op=name)
-            unchanged('refused operation')
+            # ONE full comparison per request (state and derived queries), after the last of the three calls; when it
+            # fails the culprit is found by repeating the calls one by one on copies of the state as it was before
+            unchanged_after(('query', 'verifier', 'refused operation'))
         else:
+            unchanged_after(('query', 'verifier'))
             ctx.count('accepted_on_fork')
             fork = copy.deepcopy(st)
             try:
@@ -372,7 +434,22 @@ class Adversary:
                 if getattr(op, 'player_index', None) != args[INDEXED[name]]:
                     raise Violation('C08.wrong_player', f'{name}{args} was applied to player {op.player_index}', op=name)
                 self.applied_to(fork, st, name, args, op)
-            unchanged('operation on a copy')
+            if quick_print(st) != self.before_q:
+                unchanged('operation on a copy')
+
+    def culprit(self, name, args, steps):
+        can, verify = OPS[name]
+        for what, fn in (('query', can), ('verifier', verify), ('refused operation', name)):
+            if what not in steps:
+                continue
+            c = copy.deepcopy(self.pristine)
+            try:
+                getattr(c, fn)(*args)
+            except Exception:       # noqa: BLE001
+                pass
+            if snapshot(c) != self.before or derived(c) != self.before_d:
+                return what
+        return '/'.join(s.split()[-1] for s in steps)
 
     def applied_to(self, fork, st, name, args, op):
         """The state change must concern the player the explicit index names."""
